@@ -333,17 +333,43 @@ def refuted_witnesses(ctx):
                          case={"ro": ro}, expected=want, observed=back, correspondence="recorded-refuted-examples")
 
 
+def hypotheses(ctx):
+    """The external behaviour the theorems assume, on this run's inputs."""
+    from allmydata.crypto import aes
+    from allmydata.util import jsonbytes
+    from allmydata.util.encodingutil import normalize
+    r = ctx.rng("hyp")
+    bad = []
+    for _ in range(ctx.n(300, 3000)):
+        name = D.gen_name(r)
+        if normalize(normalize(name)) != normalize(name) or normalize(name) != D.nfc(name):
+            bad.append(("normalize", name))
+        md = D.gen_metadata(r)
+        if jsonbytes.loads(jsonbytes.dumps(md)) != md or jsonbytes.dumps(md) != json.dumps(md):
+            bad.append(("json", md))
+        key, data = D.rb(r, 16), D.rb(r, r.choice([0, 1, 15, 16, 17, 90]))
+        ct = aes.encrypt_data(aes.create_encryptor(key), data)
+        if aes.decrypt_data(aes.create_decryptor(key), ct) != data or len(ct) != len(data) or ct != D.aes_ctr(key, data):
+            bad.append(("aes", key.hex(), data.hex()))
+        ctx.case(None, kind="hypothesis-sample")
+    if bad:
+        ctx.mismatch("assumed-external-behaviour", "an assumption of the theorems fails on the real library: %r" % (bad[0],),
+                     case={"first": repr(bad[0]), "count": len(bad)}, correspondence="assumed-external-behaviour")
+
+
 def run(ctx):
+    ctx.correspondence("assumed-external-behaviour")
+    hypotheses(ctx)
     ctx.correspondence("pack-unpack-model-vs-dirnode")
     ctx.correspondence("immutable-pack-model-vs-dirnode")
     ctx.correspondence("recorded-refuted-examples")
     terms, info = [], []
-    for i in range(ctx.n(130, 1500)):
+    for i in range(ctx.n(220, 2500)):
         mutable_case(ctx, i, terms, info)
     for i in range(ctx.n(14, 160)):
         mutable_case(ctx, i, terms, info, outside=True)
     nmut = len(terms)
-    for i in range(ctx.n(70, 700)):
+    for i in range(ctx.n(90, 900)):
         immutable_case(ctx, i, terms, info)
     refuted_witnesses(ctx)
     bad = ctx.coq_check(IMPORTS, terms, preamble=PREAMBLE, tag="c19", shard=14)
